@@ -163,14 +163,14 @@ def run_elem(rng):
 
 def run_compound(rng):
     import zoo
-    name = rng.choice(zoo.ALL_NAMES)
-    z, X, y, ops, mode, eps = zoo.gen_zoo_history(rng, name)
+    name = rng.choice(zoo.ALL_NAMES + zoo.NESTED_NAMES + ["Fusion", "DualVigilance", "Topo"])
+    z, X, y, ops, mode, eps = zoo.gen_zoo_history(rng, name, veto_ok=True)     # reset functions force every exit of the search
     est = z["est"]
     try:
         for i, (op, ix) in enumerate(ops):
             if op == "fit" and not z.get("fit_ok", True):
                 op = "partial_fit"
-            zoo.call(est, op, zoo.take(X, ix), None if y is None else np.asarray(y)[ix], mode, eps)
+            zoo.call(est, op, zoo.take(X, ix), None if y is None else np.asarray(y)[ix], mode, eps, veto=z.get("veto"))
         if hasattr(est, "predict"):
             with contextlib.redirect_stdout(io.StringIO()):
                 est.predict(zoo.take(X, ops[-1][1]))
@@ -221,7 +221,7 @@ def main():
         kinds[rep["kind"]] = kinds.get(rep["kind"], 0) + 1
         if f:
             fails.append(f)
-    nc = 250 if tier == "quick" else 2500
+    nc = 400 if tier == "quick" else 4000
     for _ in range(nc):
         f = run_compound(rng)
         if f:
